@@ -54,6 +54,22 @@ class C05(PropBase):
         cfgs = [(a, bs, mfs) for a in addrs for bs in (0, 1, 2) for mfs in (15, 4095)]
         if tier != 'quick':
             deep = cfgs[:1] + cfgs[7:8]          # depth 4 only for two configurations, depth 3 for all
+        # one reception of more than 65536 Consecutive Frames (32-bit First Frame length) with a block size that does not divide 2^16: a
+        # frame / block counter kept in a fixed-width field would wrap here.  Implementation trace only (`no_model`: the Lean model keeps the
+        # reception buffer as a linked list and would need minutes for half a megabyte).
+        for bs in ((3,) if tier == 'quick' else (3, 5, 255)):
+            a = addrs[0]
+            nfr = 65536 + bs
+            total = 6 + 7 * (nfr + 10)
+            ops = [{'op': 'layer', 'i': 0, 'addr': a, 'params': {'blocksize': bs, 'max_frame_size': total + 100}}]
+            fid, ext, ff = gen.rx_match_frame(a, bytes([0x10, 0x00]) + total.to_bytes(4, 'big') + bytes([0xA0, 0xA1]))
+            ops.append({'op': 'frame', 'i': 0, 'id': fid, 'ext': ext, 'data': ff})
+            for k in range(1, nfr + 1):
+                ops.append({'op': 'frame', 'i': 0, 'id': fid, 'ext': ext, 'data': bytes([0x20 | (k % 16)]) + bytes([k & 0xFF] * 7)})
+                if k % 1500 == 0:
+                    ops.append({'op': 'process', 'i': 0})
+            ops.append({'op': 'process', 'i': 0})
+            yield {'ops': ops, 'no_model': True, 'family': 'long_reception'}
         for (a, bs, mfs) in cfgs:
             alpha = alphabet(None, a, mfs)
             d = depth if tier == 'quick' else (4 if (a, bs, mfs) in deep else 3)
@@ -121,6 +137,8 @@ class C05(PropBase):
         return judge_c05(sc, lines_in, impl_out)
 
     def nontrivial_key(self, sc, lines_in, impl_out):
+        if sc.get('family') == 'long_reception':
+            return ('long_reception', trace.layer_cfg(sc)['params']['blocksize'])
         recs = trace.records(lines_in, impl_out)
         cfg = trace.layer_cfg(sc)
         kinds = []
